@@ -12,6 +12,7 @@ import (
 	"math/rand"
 	"reflect"
 	"sync"
+	"time"
 
 	"github.com/alephium/wormhole-fork/node/pkg/common"
 	"github.com/alephium/wormhole-fork/node/pkg/p2p"
@@ -131,6 +132,9 @@ func main() {
 		}
 	}
 	heartbeatCap(rng)
+	for i := 0; i < r.Pick(5, 100); i++ {
+		heartbeatCapAged(rng)
+	}
 	r.Count("evaluations", r.GetCount("messages"))
 	if r.GetCount("accepted_heartbeat") == 0 || r.GetCount("accepted_request") == 0 || r.GetCount("accepted_observation") == 0 {
 		r.Inconclusive("an unmutated message type was never accepted (vacuous)")
@@ -515,6 +519,52 @@ func observations(rng *rand.Rand, pool, pool2 []int, serial uint64) {
 }
 
 // ---------------------------------------------------------------- heartbeat table cap
+
+// heartbeatCapAged: the cap is per guardian whatever the age of other entries. Guardian B's table is filled with
+// fresh heartbeats from distinct peers; entries with old timestamps (sender-chosen, so always possible) sit under
+// guardian A, under B itself, or nowhere; then more peers announce themselves for B.
+func heartbeatCapAged(rng *rand.Rand) {
+	pool := []int{1, 2, 3}
+	gs := setOf(pool, 0)
+	send := func(gst *common.GuardianSetState, k int, peerName string, ts time.Time) {
+		hb := &gossipv1.Heartbeat{NodeName: peerName, Counter: 1, Timestamp: ts.UnixNano(), GuardianAddr: vlib.Addr(vlib.Key(k)).Hex(), BootTimestamp: 1234567}
+		p, _ := proto.Marshal(hb)
+		msg := &gossipv1.SignedHeartbeat{Heartbeat: p, Signature: signHB(k, p, hbPrefix), GuardianAddr: vlib.Addr(vlib.Key(k)).Bytes()}
+		_, _ = p2p.VerifProcessSignedHeartbeat(peer.ID(peerName), msg, gs, gst, false)
+		r.Count("messages", 1)
+		r.Count("cap_calls", 1)
+	}
+	for _, layout := range []string{"old-entry-under-another-guardian", "old-entries-under-the-same-guardian", "no-old-entries", "old-entries-everywhere"} {
+		gst := common.NewGuardianSetState(nil)
+		gst.Set(gs)
+		old := time.Now().Add(-time.Duration(2+rng.Intn(600)) * time.Minute)
+		if layout == "old-entry-under-another-guardian" || layout == "old-entries-everywhere" {
+			for i := 0; i < 1+rng.Intn(3); i++ {
+				send(gst, 1, fmt.Sprintf("a-old-%d", i), old)
+			}
+		}
+		nOldB := 0
+		if layout == "old-entries-under-the-same-guardian" || layout == "old-entries-everywhere" {
+			nOldB = 1 + rng.Intn(5)
+		}
+		for i := 0; i < common.MaxNodesPerGuardian; i++ {
+			ts := time.Now()
+			if i < nOldB {
+				ts = old
+			}
+			send(gst, 2, fmt.Sprintf("b-%d", i), ts)
+		}
+		for i := 0; i < 10; i++ { // ten more nodes claim to belong to B
+			send(gst, 2, fmt.Sprintf("b-extra-%d", i), time.Now())
+			for a, v := range gst.GetAll() {
+				if len(v) > common.MaxNodesPerGuardian {
+					r.Violation("heartbeat-table:more-than-max-nodes-per-guardian", map[string]interface{}{"guardian": a.Hex(), "entries": len(v), "max": common.MaxNodesPerGuardian, "layout": layout})
+				}
+			}
+		}
+		r.Distinct("mutation_kinds", "heartbeat-cap-aged/"+layout)
+	}
+}
 
 func heartbeatCap(rng *rand.Rand) {
 	pool := []int{1, 2, 3}
